@@ -438,6 +438,10 @@ public:
             nev_adj = nev_adjusted(nconv);
             restart(nev_adj, selection);
         }
+        // If maxit is used up, the last restart has replaced the Ritz pairs, so the
+        // convergence flags have to be recomputed for the pairs that are returned
+        if (i >= maxit)
+            nconv = num_converged(tol);
         // Sorting results
         sort_ritzpair(sorting);
 
